@@ -31,7 +31,7 @@ from core.loader import AnalysisError, FuncInfo, Repo, calls_in, norm
 from core.report import Result
 
 from . import scan
-from .c04_norm import alternatives, canon, dotted, leaves, loc, rename_atoms, restrict, seq, show_dotted, show_loc, strip_abs, unbox
+from .c04_norm import FIRST_PART, alternatives, canon, dotted, leaves, loc, rename_atoms, restrict, seq, show_dotted, show_loc, strip_abs, unbox
 from .c04_symx import FALSE, TRUE, Event, Formula, SymX, Term, Trace, atom, atoms_of, evaluate, f_and, f_not, f_or, implies, is_const, rewrite, show, show_formula, simplify, substitute, subterms
 from .common import stmt_of, types_of, where
 
@@ -358,7 +358,7 @@ def _path_vocabulary(d, leaves_ok: tuple, names_of: tuple = ()) -> bool:
             if not loc_ok(v):
                 return False
         elif kind == "item":
-            if not (v[0] == "attr" and v[2] in ("name", "stem") and (loc_ok(v[1]) or v[1] in names_of)):
+            if not (v[0] == "attr" and v[2] in ("name", "stem", FIRST_PART) and (loc_ok(v[1]) or v[1] in names_of)):
                 return False
         else:
             return False
@@ -441,7 +441,12 @@ def rule_r3(repo: Repo, res: Result) -> None:
                 readable = False
                 res.undecide("C04.R3", key + " [naming shape]", f"cannot compare the name `{show_dotted(d)}` with `{show_dotted(want)}`", wh)
             else:
-                why = "does not start with the root directory's name" if not d or d[0] != want[0] else "is not the path relative to the root with the suffix removed, one component per path part"
+                if any(k_ == "item" and v_[0] == "attr" and v_[2] == FIRST_PART for k_, v_ in d):
+                    why = "cuts the file name at its first '.', which is not where the suffix starts (`a.b.py`)"
+                elif not d or d[0] != want[0]:
+                    why = "does not start with the root directory's name"
+                else:
+                    why = "is not the path relative to the root with the suffix removed, one component per path part"
                 res.add("C04.R3", key + " [naming shape]", False, f"the module name is `{show_dotted(d)}`: it {why} (expected `{show_dotted(want)}`)", wh, kind="structural")
         else:
             res.add("C04.R3", key + " [naming shape]", True, "name = root directory name + '.' + relative path without suffix, one component per path part", wh, kind="structural")
@@ -576,7 +581,41 @@ def _len_offset(t: Term, s: Term):
             # s = p + [x]: len(p) == len(s) - 1
             c = _slice_len(lo, hi)
             return None if c is None else c - 1
+        if len(parts) == 2 and parts[0][0] == "one" and parts[1][0] == "many" and _slice_of(parts[1][1])[0] == base:
+            # s = [x] + q: len(q) == len(s) - 1
+            c = _slice_len(lo, hi)
+            return None if c is None else c - 1
     return None
+
+
+def _reversed_of(s: Term):
+    """The sequence that `s` is the reverse of (`reversed(q)`, `q[::-1]`, `[x] + reversed(p)` = reversed(p + [x])), else None."""
+    u = s
+    while u[0] == "call" and u[1] in (("builtin", "list"), ("builtin", "tuple")) and len(u[2]) == 1:
+        u = u[2][0]
+    if u[0] == "call" and u[1] == ("builtin", "reversed") and len(u[2]) == 1:
+        return _mapped_source(u[2][0])
+    if u[0] == "slice" and is_const(u[2], None) and is_const(u[3], None) and is_const(u[4], -1):
+        return _mapped_source(u[1])
+    if u[0] == "binop":
+        parts = seq(u)
+        if len(parts) == 2 and parts[0][0] == "one" and parts[1][0] == "many":
+            r = _reversed_of(parts[1][1])
+            if r is not None:
+                return ("binop", "+", r, ("list", (parts[0][1],)))
+    return None
+
+
+def _forward(pos):
+    """A position in a reversed sequence as a position in the sequence itself: with the iterations counted from the last
+    to the first, element j + off of reversed(s) is element j' - off - c of s (the same iterations, in the opposite order)."""
+    if pos is None:
+        return None
+    s_, k, off, c = pos
+    r = _reversed_of(s_)
+    if r is None:
+        return pos
+    return (r, k, -off - c, c)
 
 
 def _rebase(pos, s: Term):
@@ -609,6 +648,10 @@ def _counter(i: Term):
 
 
 def _chain_pos(t: Term):
+    return _forward(_chain_pos_raw(t))
+
+
+def _chain_pos_raw(t: Term):
     """(sequence s, loop id, offset, c): `t` is s[j + offset] in iteration j = 0 .. len(s) + c - 1 of the loop; None if not of that form.
 
     Covers `for x in s[lo:hi]`, `zip(s[:-1], s[1:])`, `zip(s, s[1:])`, `zip(p, p[1:] + [x])`, `itertools.pairwise(s)`,
@@ -1482,6 +1525,11 @@ def _check_adjusted(sx: SymX, name: Term, P: Term, I: Term, guard: Formula = TRU
     Expected: x = `prefix.n` if that is internal else `n`; for `from n import a`: `x.a` if that is internal else x."""
     # the raw symbols the name is made of (module / alias names of the ast node), in values and in the guards of choices
     syms = [x for x in _name_symbols(sx, name, I, 0, guard) if x != P]
+    for key in sorted(atoms_of(guard)):
+        # names tested for membership on the way to this constructor call (`if sub_module in internal: ... else: ...`)
+        t_ = sx.atoms.get(key)
+        if t_ is not None and t_[0] == "cmp" and t_[1] == "in" and t_[3] == I:
+            syms += [x for x in _name_symbols(sx, t_[2], I, 0, guard) if x != P and x not in syms]
     if any(not (x[0] == "attr" and x[2] in ("name", "module")) for x in syms):
         odd = next(x for x in syms if not (x[0] == "attr" and x[2] in ("name", "module")))
         return None, f"cannot tell what `{show(odd, 80)}` contributes to the importee name"
@@ -1492,7 +1540,8 @@ def _check_adjusted(sx: SymX, name: Term, P: Term, I: Term, guard: Formula = TRU
     p = ("s", P)
     if mods:
         n = ("s", mods[0])
-        a = ("s", aliases[0]) if aliases else None
+        # `from n import y` whose importee never looks at y: y stands for any imported name (it may be a sub module of n)
+        a = ("s", aliases[0]) if aliases else ("s", ("attr", ("unk", "<imported name>", 0), "name"))
     else:
         n = ("s", aliases[0])
         a = None
@@ -1526,8 +1575,7 @@ def _check_adjusted(sx: SymX, name: Term, P: Term, I: Term, guard: Formula = TRU
     for values in itertools.product([False, True], repeat=len(universe)):
         facts = dict(zip(universe, values))
         facts["known"] = guard
-        if a is not None and facts[(p, n, a)] and not facts[(p, n)]:
-            continue  # a scanned module's package is scanned as well
+        # (a scanned module's package need not be in the set: packages above module_path are not, their sub-packages are)
         if tests_prefix and not facts[("truth", P)] and (facts[(p, n)] or a is not None and facts[(p, n, a)]):
             continue  # with an empty prefix `prefix.name` starts with '.', which no module name does
         x = (p, n) if facts[(p, n)] else (n,)
@@ -1554,10 +1602,13 @@ def _check_adjusted(sx: SymX, name: Term, P: Term, I: Term, guard: Formula = TRU
     if mismatches:
         # report the most natural witness: internal modules are fully qualified names
         _r, _n, inside, got, expected = min(mismatches, key=lambda m: (m[0], m[1]))
-        if all(p not in m[3] for m in mismatches) and not _prefix_tested(sx, name, P, I):
+        tested = _prefix_tested(sx, name, P, I) or any(
+            (t_ := sx.atoms.get(k_)) is not None and t_[0] == "cmp" and t_[1] == "in" and t_[3] == I and _prefix_tested(sx, t_[2], P, I) for k_ in atoms_of(guard)
+        )
+        if all(p not in m[3] for m in mismatches) and not tested:
             why = "its name never passes the root-prefix adjustment: imports written relative to module_path's parent no longer resolve when a sub-directory is scanned"
         elif a is not None and len(got) < len(expected):
-            why = "the sub-module test is made on the un-adjusted name: the importee is the package instead of the sub module"
+            why = "the sub-module test is skipped or made on another name than the adjusted one: the importee is the package instead of the sub module"
         else:
             why = "the name is not `prefix.x` exactly when that is a scanned module"
         mods_ = [text(k) for k in inside if k[0] != "truth"]
